@@ -27,6 +27,10 @@ CLAIMED = {
    text="endPoint's handler table under the monitor rule on handlersMutex: the table invariant (every live slot holds a never-closed handler with an open queue, registered in exactly that slot; hence distinct slots hold distinct handlers and queues) is assumed at every Lock and proved at every Unlock of MakeHandler, RemoveHandler, dispatch and closeWith. Handler.closeWith requires 'not yet closed' and ensures 'closed once, closer then queue close'; RemoveHandler/dispatch(keep=false)/closeWith remove a handler from the table in the same critical section in which it is closed (so it is closed at most once and never sent to afterwards: every select-send carries a 'queue not closed' obligation); MakeHandler returns a slot that was free; removing an unknown id is an error that changes nothing.",
    note="Schedules only through the monitor rule. Assumed: Filter/Closer callbacks respect the documented restriction (do not add/remove handlers, do not touch queues); queues are not shared between handlers (MakeHandler precondition); goroutine spawned by closeWith performs the close (permission transfer at spawn). Deadlock freedom of closers and 'shutdown eventually happens' are not decided.",
    technique="contract-based deductive verification with lock-protected (monitor) invariants and ghost close counters, SMT", ref="7 C17"),
+ "C15": dict(level="proof",
+   text="Sequential specification of the registry operations (RegisterService, ServiceReady, UnregisterService, UpdateServiceInfo, info, Service) proved as postconditions over the state at the linearization point, with the registry invariant (staging and services disjoint, every id in 1..lastID, ServiceId == key) assumed at Lock and proved at Unlock; identifiers are lastID+1 (strictly increasing, never reused); a name present in staging or services is refused (map-range loops with visited-set invariants); ready moves staging->services and emits exactly one service-added event, unregister emits service-removed exactly when the service was visible; updates cannot change name or id. Every access to the three fields carries a guard obligation, each operation has exactly one critical section, and events are emitted inside it: with the monitor rule this gives linearizability in the order of the critical sections.",
+   note="Linearizability = sequential spec + one critical section per operation + monitor rule (assumption, not machine-checked). History assumption: fewer than 2^32-1 registrations (monitor_assume lastID < 2^32-1). Services() (sorted listing; append of struct elements is outside the engine's subset) and the generated stub plumbing are not under contract. Signal helper methods are abstract with ghost event counters.",
+   technique="contract-based deductive verification with lock-protected (monitor) invariants and ghost event counters, SMT", ref="7 C15"),
 }
 
 NOT_APPLICABLE = {
